@@ -155,7 +155,7 @@ class Automaton(object):
             ixx, f2 = I.prog.resolve(I.ix, me.switch)
             return I.inline(s2, ixx, f2, args, node, rty)
         I, outs = run_entry(self.prog, AUTOMATA_UNIT, self.switch, setup, port=PortModel(alloc_may_fail=False),
-                            state=st, name='%s[state=%d]' % (self.switch, s), summaries={self.switch: nested})
+                            state=st, name='%s[state=%d]' % (self.switch, s), summaries={self.switch: nested}, tracked=(inp,))
         T = self.timeouts[s]
         elapsed = ('sub', ('sym', 'clock.s.0', 0, 1 << 63), lt)
         res = []
